@@ -4,6 +4,7 @@ package dsd
 // check here for some benchmarks: https://github.com/alecthomas/go_serialization_benchmarks
 
 import (
+	"bytes"
 	"encoding/json"
 	"errors"
 	"fmt"
@@ -55,7 +56,13 @@ func LoadAsFormat(data []byte, format uint8, t interface{}) (err error) {
 		}
 		return nil
 	case MsgPack:
-		err = msgpack.Unmarshal(data, t)
+		// The msgpack decoder allocates slices and maps by their announced
+		// length before it reads any element. Check that the data is complete
+		// first, so that memory usage stays proportional to the input size.
+		err = msgpack.NewDecoder(bytes.NewReader(data)).Skip()
+		if err == nil {
+			err = msgpack.Unmarshal(data, t)
+		}
 		if err != nil {
 			return fmt.Errorf("dsd: failed to unpack msgpack: %w, data: %s", err, utils.SafeFirst16Bytes(data))
 		}
